@@ -139,6 +139,54 @@ fn update_channel_probe(a: &mut Args) -> String {
 	format!("{} {} {}", matches!(res, Ok(Some(_))) as u8, rd(&ch.one_to_two), rd(&ch.two_to_one))
 }
 
+/// node_announcement_addr_probe <addr_len> <avail> (<kind> <hostname_len>)*: decodes (real
+/// `UnsignedNodeAnnouncement::read_from_fixed_length_buffer`) the byte string
+///   flen=0 | timestamp | node_id | rgb | alias | addr_len | descriptors... zero padding
+/// truncated to 76 + avail bytes. Descriptor kinds: 0 IPv4, 1 IPv6, 2 onion v2, 3 onion v3,
+/// 4 hostname of `hostname_len` valid bytes, 5 unknown descriptor type (one byte 0x09),
+/// 6 hostname of `hostname_len` bytes containing an invalid character.
+/// Output: `1 <#addresses> <excess_address_data len> <addr_len field of the re-encoding>` if
+/// accepted, `0 <error code> 0 0` if rejected (1 ShortRead, 2 BadLengthDescriptor, 3 InvalidValue, 9 other).
+fn node_announcement_addr_probe(a: &mut Args) -> String {
+	use lightning::ln::msgs::{DecodeError, UnsignedNodeAnnouncement};
+	use lightning::util::ser::{LengthReadable, Writeable};
+	let (addr_len, avail) = (a.u16(), a.usize());
+	let mut bytes = vec![0u8; 74];
+	bytes.extend_from_slice(&addr_len.to_be_bytes());
+	while let Some(k) = a.it.next() {
+		let k: u8 = k.parse().expect("kind");
+		let hl = a.u8();
+		match k {
+			0 => { bytes.push(1); bytes.extend_from_slice(&[7u8; 6]); },
+			1 => { bytes.push(2); bytes.extend_from_slice(&[7u8; 18]); },
+			2 => { bytes.push(3); bytes.extend_from_slice(&[7u8; 12]); },
+			3 => { bytes.push(4); bytes.extend_from_slice(&[7u8; 37]); },
+			4 => { bytes.push(5); bytes.push(hl); bytes.extend(core::iter::repeat(b'a').take(hl as usize)); bytes.extend_from_slice(&[1, 2]); },
+			5 => { bytes.push(9); },
+			_ => { bytes.push(5); bytes.push(hl); bytes.extend(core::iter::repeat(b'!').take(hl as usize)); bytes.extend_from_slice(&[1, 2]); },
+		}
+	}
+	bytes.resize(core::cmp::max(bytes.len(), 76 + avail), 0);
+	bytes.truncate(76 + avail);
+	let mut r = &bytes[..];
+	match UnsignedNodeAnnouncement::read_from_fixed_length_buffer(&mut r) {
+		Ok(m) => {
+			let enc = m.encode();
+			let re = u16::from_be_bytes([enc[74], enc[75]]);
+			format!("1 {} {} {}", m.addresses.len(), m.excess_address_data.len(), re)
+		},
+		Err(e) => {
+			let c = match e {
+				DecodeError::ShortRead => 1,
+				DecodeError::BadLengthDescriptor => 2,
+				DecodeError::InvalidValue => 3,
+				_ => 9,
+			};
+			format!("0 {} 0 0", c)
+		},
+	}
+}
+
 /// node_announcement_probe <node_known 0/1> <has_prev 0/1> <prev_ts> <ts>: real public API on a graph
 /// with one channel between node ids [2;33] and [3;33]; the announcement is for [2;33] (known) or an
 /// unrelated id (unknown). Returns (accepted, stored last_update or 0).
@@ -346,6 +394,7 @@ fn dispatch(name: &str, a: &mut Args) -> String {
 			format!("{} {}", s, v)
 		},
 		"node_announcement_probe" => node_announcement_probe(a),
+		"node_announcement_addr_probe" => node_announcement_addr_probe(a),
 		"secret_store_honest" => {
 			// provide the seed-derived secrets for the top m indices, then read every one back
 			use lightning::ln::chan_utils::{build_commitment_secret, CounterpartyCommitmentSecrets};
